@@ -111,10 +111,16 @@ impl<'tcx> TyGenContext<'_, 'tcx> {
         let ty_name = self.formatter.fmt_type_name(self.id.try_into().unwrap());
         let mut fields = vec![];
         let mut cb_structs_and_defs = vec![];
-        for field in def.fields.iter() {
+        // Field names are escaped like parameter names (the C++ wrapper already reads `c_struct.<escaped name>`)
+        let field_names: Vec<_> = def
+            .fields
+            .iter()
+            .map(|field| self.formatter.fmt_identifier(field.name.as_str().into()))
+            .collect();
+        for (field, field_name) in def.fields.iter().zip(field_names.iter()) {
             fields.push(self.gen_ty_decl(
                 &field.ty,
-                field.name.as_str(),
+                field_name,
                 &mut decl_header,
                 None,
                 &mut cb_structs_and_defs, // for now this gets ignored, there are no callbacks in struct fields
